@@ -521,7 +521,10 @@ pub(crate) mod verif_probe {
         let clients_after_a: Vec<Value> = crate::stats::get_client_stats().values().filter(|c| c.pool_name() == db)
             .map(|c| json!([format!("{}", c.state.load(Ordering::Relaxed)), c.transaction_count.load(Ordering::Relaxed), c.query_count.load(Ordering::Relaxed)])).collect();
         // where a CancelRequest with a client key would be sent right now (A idle or gone)
+        #[cfg(not(verif_probe_minimal))]
         let csmap_after_a: Vec<Value> = csmap.lock().iter().map(|(k, v)| json!([k.0, k.1, v.0, v.1])).collect();
+        #[cfg(verif_probe_minimal)]
+        let csmap_after_a: Vec<Value> = csmap.lock().iter().map(|(_k, v)| json!([0, 0, v.0, v.1])).collect();
         let mut b_out: Vec<u8> = vec![];
         let mut b_state = "not-run".to_string();
         if v["probe_b"].as_bool().unwrap_or(true) && !paused_at_end {
